@@ -71,17 +71,16 @@ SPEC = {
                   'C12): C11_commit - for all role assignments, oracles, reader states, failing-call patterns and phases the commit observation is produced without panic '
                   'and accepted by every oracle; C11_exec_valid / C11_exec_no_panic - whatever the execute plugin produces is accepted, never a panic; C11_exec - '
                   'produced and accepted whenever all calls succeed, for every role (full strength since the repairs F18, F18c, F18d). Histories: for EVERY list of '
-                  'poller events (Start, successful / failed / partial fetches, reads, Close) interleaved with rounds, a round is answered from the latest successfully '
-                  'fetched configuration alone, so the honest observation of round k is accepted by every validation that sees the same latest configuration whatever the '
-                  'role map was before (C11_history_round, _commit, _exec; induction through the C18 snapshot theorem); every getter / ChainSupport answer is the Roles '
-                  'accessor on that configuration (C11_history_role_map). Unrepaired code refuted: F05 (token-price role check rejected honest partial readers), F18 '
-                  'family (panic / whole observation failing without destination access). Judge soundness (16 C11_judge_*): for each of the 6 sinks the executable '
-                  "property accepts the model's output and implies the Prop-level clause; ce_ok is stronger than C11_exec (errors only for a failing call on the oracle's "
-                  "OWN readers). Correspondence, every run: one real plugin per oracle (NewPlugin) over a real ccipChainReader limited to the oracle's chains, every "
-                  'observation fed to every validator; 4 or 7 LONG-LIVED plugins each on its own REAL home-chain poller over a scripted CCIPHome through 5..8 role-map '
-                  'changes of 15 kinds (incl. a change whose poll fails), every round and every poller / ChainSupport getter judged on the latest successfully fetched '
-                  'configuration. No translated leaf function (the validators range over Go maps and are refused by the translator). Partial: outside values_ok (e.g. a '
-                  'zero native price on chain) the whole observation is rejected for reasons other than roles and the clause is vacuous.',
+                  'poller events interleaved with rounds, a round is answered from the latest successfully fetched configuration alone, so the honest observation of '
+                  'round k is accepted by every validation that sees the same latest configuration whatever the role map was before (C11_history_round, _commit, _exec, '
+                  '_role_map; induction through the C18 snapshot theorem). Unrepaired code refuted: F05 (role check rejected honest partial readers), F18 family (panic / '
+                  'whole observation failing without destination access). Judge soundness (16 C11_judge_*): for each of the 6 sinks the executable property accepts the '
+                  "model's output and implies the Prop-level clause. Correspondence, every run: one real plugin per oracle (NewPlugin) over a real ccipChainReader "
+                  "limited to the oracle's chains, every observation fed to every validator; 4 or 7 LONG-LIVED plugins each on its own REAL home-chain poller over a "
+                  'scripted CCIPHome through 5..8 role-map changes of 15 kinds (incl. a change whose poll fails), every round and every poller / ChainSupport getter '
+                  'judged on the latest successfully fetched configuration. No translated leaf function (the validators range over Go maps and are refused by the '
+                  'translator). Partial: outside values_ok (e.g. a zero native price on chain) the observation is rejected for reasons other than roles and the clause is '
+                  'vacuous.',
     'level_note': 'Trusted: Coq kernel, hand-written model and theorem statements, differential harness. Specific: contract readers, chain writers and the price reader '
                   "are scripted fakes BELOW the real ccipChainReader (they answer only for chains of the oracle's role and fail exactly the scripted calls; the "
                   'price-reader fake mirrors the guards of price_reader.go); in the history parts the home chain is the real poller and only the CCIPHome contract reader '
